@@ -123,6 +123,67 @@ def build_class(n, edges, initials, finals, strict, variant="shared", any_target
     return ("accept", kinds, cls)
 
 
+def _kinds(wl):
+    kinds = {"trap": None, "nopath": None}
+    for w in wl:
+        msg = str(w.message)
+        ids = sorted(int(x) for x in re.findall(r"'s(\d+)'", msg.split("These states")[-1]))
+        if "no outgoing transition" in msg:
+            kinds["trap"] = ids
+        elif "no path to a final state" in msg:
+            kinds["nopath"] = ids
+        elif issubclass(w.category, UserWarning):
+            kinds.setdefault("other", []).append(msg)
+    return kinds
+
+
+def subclass_statement(base, strict, ns=None):
+    from statemachine.exceptions import InvalidDefinition
+    from statemachine.factory import StateMachineMetaclass
+    with warnings.catch_warnings(record=True) as wl:
+        warnings.simplefilter("always")
+        try:
+            kw = {"strict_states": True} if strict else {}
+            cls = StateMachineMetaclass("Sub", (base,), dict(ns or {}), **kw)
+        except InvalidDefinition as e:
+            return ("reject", e)
+        except Exception as e:   # noqa: BLE001
+            return ("error", e)
+    return ("accept", _kinds(wl), cls)
+
+
+def graph_diagnosis(cls):
+    """What the rules say about the graph the class actually ended up with (states and
+    transitions read back from the class): unreachable states, traps, states without a path to a
+    final state.  Used where the declared graph is not the whole story (inheritance)."""
+    ids = [s.id for s in cls.states]
+    succ = {i: set() for i in ids}
+    for s in cls.states:
+        for t in s.transitions:
+            succ[s.id].add(t.target.id)
+    finals = {s.id for s in cls.states if s.final}
+    init = [s.id for s in cls.states if s.initial]
+    seen, todo = set(init), list(init)
+    while todo:
+        x = todo.pop()
+        for y in succ[x]:
+            if y not in seen:
+                seen.add(y)
+                todo.append(y)
+    unreachable = sorted(set(ids) - seen)
+    trap = sorted(i for i in ids if i not in finals and not succ[i])
+    can = set(finals)
+    changed = True
+    while changed:
+        changed = False
+        for i in ids:
+            if i not in can and succ[i] & can:
+                can.add(i)
+                changed = True
+    nopath = sorted(i for i in ids if i not in can and i not in finals) if finals else []
+    return unreachable, trap, nopath
+
+
 def compare(exp, got, desc):
     if exp[0] == "abstract":
         if got[0] != "accept":
@@ -336,6 +397,101 @@ def inheritance_and_enum_specials(res):
                           f"{' + a transition leaving the final state' if extra else ''}",
                           from_enum, "reject" if extra else "accept", None))
 
+    # inheritance where the declared pieces are not the whole story: the verdict and the
+    # diagnostics must agree with the graph the subclass actually ends up with
+    from statemachine import Event
+
+    def base_any():
+        a, b, f = State(initial=True), State(), State(final=True)
+        return StateMachineMetaclass("BA9", (StateMachine,), {
+            "a": a, "b": b, "f": f, "go": a.to(b), "finish": f.from_.any()})
+
+    def base_eventonly():
+        with warnings.catch_warnings():
+            warnings.simplefilter("ignore")
+            return StateMachineMetaclass("BE9", (StateMachine,), {
+                "a": State(initial=True), "ping": Event()})
+
+    def base_eventonly2():
+        a, b = State(initial=True), State()
+        return StateMachineMetaclass("BE9", (StateMachine,), {
+            "a": a, "b": b, "go": a.to(b) | b.to(a), "ping": Event()})
+
+    extra = []
+    for strict in (False, True):
+        kw = {"strict_states": True} if strict else {}
+
+        def any_sub_stuck(kw=kw):
+            B = base_any()
+            z = State()
+            return StateMachineMetaclass("SA9", (B,), {"z": z, "toz": B.a.to(z),
+                                                       "loop": z.to.itself()}, **kw)
+
+        def any_sub_escapes(kw=kw):
+            B = base_any()
+            z = State()
+            return StateMachineMetaclass("SA9", (B,), {"z": z, "toz": B.a.to(z),
+                                                       "out": z.to(B.b)}, **kw)
+
+        def any_sub_trap(kw=kw):
+            B = base_any()
+            z = State()
+            return StateMachineMetaclass("SA9", (B,), {"z": z, "toz": B.b.to(z)}, **kw)
+
+        def any_sub_plain(kw=kw):
+            return StateMachineMetaclass("SA9", (base_any(),), {}, **kw)
+
+        def eventonly_sub2(kw=kw):
+            return StateMachineMetaclass("SE9", (base_eventonly2(),), {}, **kw)
+        extra += [(f"subclass of a from_.any() machine adds a state stuck in a self-loop "
+                   f"(strict={strict})", any_sub_stuck),
+                  (f"subclass of a from_.any() machine adds a state that leads back "
+                   f"(strict={strict})", any_sub_escapes),
+                  (f"subclass of a from_.any() machine adds a trap state (strict={strict})",
+                   any_sub_trap),
+                  (f"plain subclass of a from_.any() machine (strict={strict})", any_sub_plain),
+                  (f"plain subclass of a machine with an event that has no transition "
+                   f"(strict={strict})", eventonly_sub2)]
+
+    def eventonly_sub():
+        return StateMachineMetaclass("SE9", (base_eventonly(),), {})
+    extra.append(("plain subclass of a machine whose only event has no transition", eventonly_sub))
+    for (label, fn) in extra:
+        res.stats["evaluations"] += 1
+        strict = "strict=True" in label
+        got = class_statement(fn)
+        msg = None
+        if got[0] == "error":
+            msg = f"{label}: the class statement raised {got[1]!r}"
+        elif got[0] == "accept":
+            unreach, trap, nopath = graph_diagnosis(got[2])
+            warned = " | ".join(got[1])
+            if unreach:
+                msg = f"{label}: accepted although {unreach} cannot be reached"
+            elif strict and (trap or nopath):
+                msg = (f"{label}: accepted under strict_states although the class has traps "
+                       f"{trap} / states without a path to a final state {nopath}")
+            else:
+                for ids, key in ((trap, "no outgoing transition"),
+                                 (nopath, "no path to a final state")):
+                    has = [w for w in got[1] if key in w]
+                    if ids and not (has and all(repr(i) in has[0] for i in ids)):
+                        msg = (f"{label}: the class has states {ids} with {key} but the "
+                               f"warnings were: {warned or 'none'}")
+                    elif not ids and has:
+                        msg = f"{label}: spurious warning {has[0]!r}"
+        else:
+            # rejected: legitimate only under strict_states for a graph with traps / no path.
+            # Re-declare without strict to see the graph.
+            if not strict:
+                msg = f"{label}: rejected with {got[1]!r} (the same graph as one class is accepted)"
+            else:
+                res.hist["special:reject"] += 1
+        if msg:
+            res.violation({"category": "special", "case": label[:40]}, {"special": label}, msg)
+        elif got[0] == "accept":
+            res.hist["special:accept"] += 1
+
     for (label, fn, want, warn) in cases:
         res.stats["evaluations"] += 1
         got = class_statement(fn)
@@ -387,6 +543,12 @@ def _one(res, n, edges, initials, finals, strict, variant, any_target, only_edge
             f"strict={strict} variant={variant}" + (f" from_.any()->{any_target}"
                                                     if any_target is not None else ""))
     msg = compare(exp, got, desc)
+    if msg is None and got[0] == "accept" and exp[0] == "accept":
+        # `class Sub(G): pass` is a class statement over the very same graph: same verdict, same
+        # diagnostics
+        sub = subclass_statement(got[2], strict)
+        msg = compare(exp, sub, desc + " [plain subclass of the accepted class]")
+        res.stats["evaluations"] += 1
     res.hist[exp[0] + (":" + exp[1] if exp[0] == "reject" else
                        (":warn" if exp[0] == "accept" and (exp[1]["trap"] or exp[1]["nopath"])
                         else ""))] += 1
